@@ -5,8 +5,15 @@ Property theorems only (helper lemmas live in AgVerif/Proof/Leb.lean).
 Model: AgVerif.Leb (transliteration of readuleb128 / readuleb128p1 / readsleb128 /
 writeuleb128 / writesleb128).   Spec: AgVerif.Spec.Leb (DEX format document).
 All theorems quantify over every byte list / every integer in the stated domain.
+
+Tie by translation: AgVerif.Gen.PyLeb is generated from the Python source of the tree under test
+by gen/py2lean.py (statement by statement; subset and conventions in its docstring, operator
+meaning in Model/PyInt.lean).  The `gen_*_eq` theorems prove that each generated definition IS the
+hand model (in canonical form: values as Python ints, remaining bytes instead of a count), for
+every input; the `src_*` theorems restate the main results directly about the generated code.
 -/
 import AgVerif.Proof.Leb
+import AgVerif.Proof.PyLeb
 namespace AgVerif.C03
 open AgVerif.Leb AgVerif.Spec.Leb
 
@@ -130,6 +137,70 @@ theorem sleb_roundtrip (v : Int) (rest : List Nat) (hlo : -2 ^ 31 ≤ v) (hhi : 
     ∃ bs, writeSleb v = some bs ∧ bs.length ≤ 5 ∧ readSleb (bs ++ rest) = some (v, bs.length) :=
   sleb_roundtrip_aux v rest hlo hhi
 
+/-! ### the source, translated, is the model -/
+
+/-- readuleb128 as translated from the source = the hand model, on every byte list. -/
+theorem gen_readuleb128_eq (bs : List Nat) :
+    Gen.PyLeb.readuleb128 bs = PyLeb.rd (fun v : Nat => (v : Int)) bs (readUleb bs) :=
+  PyLeb.gen_readuleb128_eq bs
+
+/-- readuleb128p1 as translated from the source = the hand model. -/
+theorem gen_readuleb128p1_eq (bs : List Nat) :
+    Gen.PyLeb.readuleb128p1 bs = PyLeb.rd id bs (readUlebP1 bs) :=
+  PyLeb.gen_readuleb128p1_eq bs
+
+/-- readsleb128 as translated from the source (loop unrolled, sign fix-up inline) = the hand model. -/
+theorem gen_readsleb128_eq (bs : List Nat) :
+    Gen.PyLeb.readsleb128 bs = PyLeb.rd id bs (readSleb bs) :=
+  PyLeb.gen_readsleb128_eq bs
+
+/-- writeuleb128 as translated from the source = the hand model, for every integer; in particular
+    the fuel `value + 1` of the translated `while remaining > 0` is never exhausted. -/
+theorem gen_writeuleb128_eq (value : Int) :
+    Gen.PyLeb.writeuleb128 value = PyLeb.wr (writeUleb value) :=
+  PyLeb.gen_writeuleb128_eq value
+
+/-- writesleb128 as translated from the source (fuel 13) = the hand model (fuel 12), for every integer. -/
+theorem gen_writesleb128_eq (value : Int) :
+    Gen.PyLeb.writesleb128 value = PyLeb.wr (writeSleb value) :=
+  PyLeb.gen_writesleb128_eq value
+
+/-- uleb_decode_spec, about the translated source: value per specification, stream left at `rest`. -/
+theorem src_uleb_decode_spec (item rest : List Nat) (v : Nat)
+    (hi : IsItem item) (hl : item.length ≤ 5) (hv : unsignedValue item = some v) :
+    Gen.PyLeb.readuleb128 (item ++ rest) = some ((v : Int), rest) := by
+  rw [gen_readuleb128_eq, uleb_decode_spec item rest v hi hl hv]
+  simp [PyLeb.rd]
+
+/-- sleb_decode_spec, about the translated source. -/
+theorem src_sleb_decode_spec (item rest : List Nat) (v : Int)
+    (hi : IsItem item) (hl : item.length ≤ 5) (hv : signedValue item = some v) :
+    Gen.PyLeb.readsleb128 (item ++ rest) = some (v, rest) := by
+  rw [gen_readsleb128_eq, sleb_decode_spec item rest v hi hl hv]
+  simp [PyLeb.rd]
+
+/-- unsigned round trip, about the translated source: write then read gives the value back and
+    leaves the stream after the item. -/
+theorem src_uleb_roundtrip (v : Nat) (rest : List Nat) (hv : v < 2 ^ 32) :
+    ∃ bs : List Nat, Gen.PyLeb.writeuleb128 (v : Int) = some (bs.map (fun b : Nat => (b : Int))) ∧
+      Gen.PyLeb.readuleb128 (bs ++ rest) = some ((v : Int), rest) := by
+  refine ⟨writeUlebNat v, ?_, ?_⟩
+  · rw [gen_writeuleb128_eq]
+    have : ¬ ((v : Int) < 0) := by omega
+    simp [writeUleb, this, PyLeb.wr]
+  · rw [gen_readuleb128_eq, uleb_roundtrip v rest hv]
+    simp [PyLeb.rd]
+
+/-- signed round trip, about the translated source. -/
+theorem src_sleb_roundtrip (v : Int) (rest : List Nat) (hlo : -2 ^ 31 ≤ v) (hhi : v < 2 ^ 31) :
+    ∃ bs : List Nat, Gen.PyLeb.writesleb128 v = some (bs.map (fun b : Nat => (b : Int))) ∧
+      bs.length ≤ 5 ∧ Gen.PyLeb.readsleb128 (bs ++ rest) = some (v, rest) := by
+  obtain ⟨bs, hw, hl, hr⟩ := sleb_roundtrip v rest hlo hhi
+  refine ⟨bs, ?_, hl, ?_⟩
+  · rw [gen_writesleb128_eq, hw]; rfl
+  · rw [gen_readsleb128_eq, hr]
+    simp [PyLeb.rd]
+
 /-! Non-vacuity: concrete non-trivial objects satisfy the hypotheses. -/
 example : IsItem [0xe5, 0x8e, 0x26] ∧ unsignedValue [0xe5, 0x8e, 0x26] = some 624485 := by decide
 example : IsItem [0xff, 0xff, 0xff, 0xff, 0x0f] ∧
@@ -138,5 +209,8 @@ example : IsItem [0x80, 0x7f] ∧ signedValue [0x80, 0x7f] = some (-128) := by d
 example : IsItem [0x80, 0x80, 0x80, 0x80, 0x78] ∧
     signedValue [0x80, 0x80, 0x80, 0x80, 0x78] = some (-2 ^ 31) := by decide
 example : readSleb [0x80, 0x80, 0x80, 0x80, 0x78] = some (-2147483648, 5) := by decide
+example : Gen.PyLeb.readsleb128 [0x80, 0x80, 0x80, 0x80, 0x78, 7] = some (-2147483648, [7]) := by decide
+example : Gen.PyLeb.writeuleb128 624485 = some [0xe5, 0x8e, 0x26] := by decide
+example : Gen.PyLeb.writesleb128 (-128) = some [0x80, 0x7f] := by decide
 
 end AgVerif.C03
